@@ -152,7 +152,12 @@ class Aff:
     def show(self):
         parts = []
         for a, v in sorted(self.t.items(), key=lambda kv: (-abs(kv[1]), repr(kv[0]))):
-            nm = "b%d" % a[1] if a[0] == "b" else str(a[1])
+            if a[0] == "b":
+                nm = "b%d" % a[1]
+            elif a[0] == "x":
+                nm = "(" + "^".join("b%d" % n for n in sorted(a[1])) + ("^1" if a[2] else "") + ")"
+            else:
+                nm = str(a[1])
             parts.append("%s*%s" % (v, nm) if v != 1 else nm)
         if self.c or not parts:
             parts.append(str(self.c))
@@ -160,7 +165,7 @@ class Aff:
 
 
 def default_atom_range(a):
-    if a[0] == "b":
+    if a[0] in ("b", "x"):
         return 0, 1
     return a[2], a[3]  # ('n', name, lo, hi)
 
@@ -214,13 +219,24 @@ class IntV(Val):
         self.lo = max(x for x in (lo if lo is not None else tlo, blo, alo, tlo))
         self.hi = min(x for x in (hi if hi is not None else thi, bhi, ahi, thi))
         self.aff = aff
-        d = set(deps or ())
+        exact = (bits is not None and TBIT not in bits) or aff is not None
+        if exact:
+            # the value is a function of exactly these bits: operand dependences that were masked/shifted away are dropped;
+            # control dependences (tagged) and non-frame labels are kept
+            d = set(x for x in (deps or ()) if not isinstance(x, int))
+        else:
+            d = set(deps or ())
         if bits is not None:
             for b in bits:
                 d |= bit_deps(b)
         if aff is not None:
             for a in aff.t:
-                d.add(a[1] if a[0] == "b" else a)
+                if a[0] == "b":
+                    d.add(a[1])
+                elif a[0] == "x":
+                    d |= set(a[1])
+                else:
+                    d.add(a)
         self.deps = frozenset(d)
         self.sid = sid
         self.term = term
@@ -256,9 +272,11 @@ class IntV(Val):
                 pass
             elif b[0] == "b":
                 k = ("b", b[1])
-                if k in t:
-                    return None  # same bit twice: still affine actually
-                t[k] = 1 << i
+                t[k] = t.get(k, 0) + (1 << i)
+            elif b[0] == "x":
+                # an XOR-set is a 0/1-valued atom of its own (GF(2)-linear code: Gray, CRC)
+                k = ("x", b[1], b[2])
+                t[k] = t.get(k, 0) + (1 << i)
             else:
                 return None
         return Aff(c, t)
@@ -286,14 +304,21 @@ class IntV(Val):
 
 
 class BoolV(Val):
-    __slots__ = ("val", "origin", "deps", "term")
+    __slots__ = ("val", "origin", "deps", "term", "bit")
     kind = "bool"
 
-    def __init__(self, val=None, origin=None, deps=frozenset(), term=None):
+    def __init__(self, val=None, origin=None, deps=frozenset(), term=None, bit=None):
         self.val = val
-        self.origin = origin  # ('cmp', op, a, b) | ('not', BoolV) | ('bit', bitexpr)
-        self.deps = frozenset(deps)
+        self.origin = origin  # ('cmp', op, a, b) | ('not', BoolV) | ('and'|'or', (BoolV..))
         self.term = term
+        # optional exact bit expression of the truth value (frame bit / XOR-set), for GF(2)-linear code
+        if val is not None:
+            bit = 1 if val else 0
+        self.bit = bit
+        d = frozenset(deps)
+        if bit is not None and not bit_is_const(bit) and bit != TBIT:
+            d = d | bit_deps(bit)
+        self.deps = d
 
     def __repr__(self):
         return "bool:%s" % ({True: "T", False: "F", None: "?"}[self.val])
@@ -576,9 +601,10 @@ def join(a, b):
                     a.aff if a.aff is not None and a.aff == b.aff else None, a.deps | b.deps,
                     a.sid if a.sid == b.sid else None, a.term if a.term == b.term else None)
     if k == "bool":
-        if a.val == b.val and a.origin is b.origin:
+        if a.val == b.val and a.origin is b.origin and a.bit == b.bit:
             return a
-        return BoolV(a.val if a.val == b.val else None, None, a.deps | b.deps, a.term if a.term == b.term else None)
+        return BoolV(a.val if a.val == b.val else None, None, a.deps | b.deps, a.term if a.term == b.term else None,
+                     a.bit if a.bit == b.bit else None)
     if k == "float":
         if a.lo == b.lo and a.hi == b.hi and a.term == b.term and a.sid == b.sid:
             return a
@@ -665,6 +691,9 @@ def join_guard(ga, gb):
             cons[s] = (min(ca[s][0], cb[s][0]), max(ca[s][1], cb[s][1]))
     if cons:
         g["cons"] = cons
+    da, db = ga.get("deps", frozenset()), gb.get("deps", frozenset())
+    if da or db:
+        g["deps"] = frozenset(da) | frozenset(db)
     ka, kb = ga.get("kb", {}), gb.get("kb", {})
     kk = {b: v for b, v in ka.items() if kb.get(b) == v}
     if kk:
